@@ -627,7 +627,12 @@ func (m *SparseInt32Matrix) Import(filename string) error {
     if v, err := strconv.ParseFloat(fields[2], 64); err != nil {
       return err
     } else {
-      values = append(values, int32(v))
+      x := int32(v)
+      // integers beyond 2^53 have no exact float64 representation
+      if k, err := strconv.ParseInt(fields[2], 10, 64); err == nil && k != 0 {
+        x = int32(k)
+      }
+      values = append(values, x)
     }
   }
   if rows < 0 || cols < 0 {
